@@ -262,12 +262,27 @@ def contracts():
 # ======================================================================================
 # Parameters.trigger
 # ======================================================================================
+def objects_dict_get(I, st, ref, k):
+    from pyvc import objects
+    return objects.dict_get(I, st, ref, k)
+
+
 def trigger_contract():
     from contracts import c05 as _c05
     holder = {}
 
     def configure(I):
         I.sym_fields = {"_autotrigger_value", "_mode", "_autotrigger_reset_value"}
+        attr_now = z3.Function("attribute_read", vm.V, vm.V, vm.V)     # getattr(obj, name): what the descriptor PRODUCES
+
+        def h_getattr(I, st, fv, args, kwargs, ctx):
+            from pyvc import builtins_lib as bl
+            if isinstance(args[1], Sym):
+                r = attr_now(I.term(args[0]), args[1].t)
+                I.U.well_typed(r)
+                return [(st, Sym(r))]
+            return bl.h_getattr(I, st, fv, args, kwargs, ctx)
+        I.lib["getattr"] = h_getattr
 
     def setup(I, st):
         U = I.U
@@ -276,8 +291,17 @@ def trigger_contract():
         st.pc.append(W.tr0.t == U.FALSE)           # trigger is not re-entered from inside a trigger
         _c05.install_namespace_contracts(I, W)
 
+        def values(I, st2, fv, args, kwargs, ctx):
+            r = I.alloc_dict(st2, keys=I.U.fresh_seq("valuekeys"), vals=z3.Const("current_values", z3.ArraySort(vm.V, vm.V)))
+            st2.ghost["values_vals"] = st2.heap[r.oid].vals
+            return [(st2, r)]
+        I.contracts["Parameters.values"] = values
+
         def update(I, st2, fv, args, kwargs, ctx):
             st2.ghost["update_calls"] = st2.ghost.get("update_calls", []) + [(W.tr(st2), W.bw(st2))]
+            if args and isinstance(args[0], Ref) and st2.heap[args[0].oid].kind == "dict":
+                nm_ = holder["name"]
+                st2.ghost["reassigned"] = (I.truth(I.dict_has(st2, args[0], nm_)), I.term(objects_dict_get(I, st2, args[0], nm_)))
             # the batch of sets performed by update: whatever it leaves in the queues
             e = I.alloc_list(st2, U.fresh_seq("upd_events"))
             w = I.alloc_list(st2, U.fresh_seq("upd_watchers"))
@@ -289,8 +313,9 @@ def trigger_contract():
             return [(st2, Sym(U.fresh("restorer"))), (q, Raise("$User", origin="update"))]
         I.contracts["Parameters.update"] = update
         name = Sym(U.fresh("param_name"))
+        holder["name"] = name
         fv = I.bound_method(W.param, I.src.find_method("Parameters", "trigger"))
-        return fv, [name], {}, {"W": W, "symbols": {"BATCH_WATCH0": W.bw0.t}}
+        return fv, [name], {}, {"W": W, "name": name.t, "symbols": {"BATCH_WATCH0": W.bw0.t}}
 
     def post(I, info, st, oc):
         U = I.U
@@ -307,6 +332,19 @@ def trigger_contract():
         out.append(("exit/BATCH_WATCH-untouched[%s]" % how, W.bw(st) == W.bw0.t))
         out.append(("update runs exactly once, under the trigger flag",
                     z3.And(z3.BoolVal(len(calls) == 1), calls[0][0] == U.TRUE) if calls else z3.BoolVal(False)))
+        ra, vv = st.ghost.get("reassigned"), st.ghost.get("values_vals")
+        if ra is not None and vv is not None:
+            from contracts.c05 import param_of
+            from pyvc.builtins_lib import hasattr_fn
+            is_event = hasattr_fn("_autotrigger_value")(param_of(info["name"]))
+            # members of the filtered comprehensions (trigger_params, triggers) satisfy their filters
+            for f_ in I.U.__dict__.get("folds", {}).values():
+                for sq in f_.__dict__.get("applied", []):
+                    I.U.axioms.append(f_.elim_seq(sq, info["name"]))
+            out.append(("the triggered parameter is re-assigned the object values() reports for it (a value generator stays in place) — unless it is an Event",
+                        z3.And(ra[0], z3.Implies(z3.Not(is_event), ra[1] == z3.Select(vv, info["name"])))))
+        else:
+            out.append(("the triggered parameter is re-assigned through update(<mapping>)", z3.BoolVal(False)))
         ev, ws = W.ev_seq(st), W.ws_seq(st)
         uev, uws = st.ghost.get("upd_ev"), st.ghost.get("upd_ws")
         if ev is not None and uev is not None:
